@@ -183,6 +183,15 @@ CHECKS = {
               'Failures on conforming input are always violations; failures on malformed input are matched against the known sites.'),
         note=('Partial: memory safety of the real decoder is decided by the runs, not by theorems. The campaign uses a fixed internal seed so that the failure signatures of the unchanged tree are stable. Known findings: D6 (bit readers read up to 8 bytes past the caller\'s buffer, on valid streams), '
               'D14 (UBSan index out of bounds in EbDecParseBlock.c on valid streams), D28 (no validation of malformed input: 18 crash sites). Fixed in /repo: endless loop on any parse error, bit-depth change without re-initialisation, portrait-size overflow.')),
+    'C14': dict(
+        category='proof', design_ref='DESIGN.md §6 C14',
+        technique='Coq-verified lock-discipline checker (sound for all execution paths) applied to control-flow skeletons regenerated from the C sources + executable protocol specification run against the real API in lockstep',
+        text=('c14_checker_sound + c14_lock_discipline_holds: for every library function that calls svt_block_on_mutex / svt_release_mutex (45 in the current source; skeleton of locks, branches, loops, breaks, returns regenerated from clang\'s AST with macros expanded on every run), '
+              'every execution path - any branch choices, any number of loop iterations - returns with every mutex it took released, never re-locks a held mutex and never releases one it does not hold (except the functions listed as recorded findings). '
+              'c14_null_calls_are_errors / c14_rejected_configuration_keeps_handle_usable: the protocol specification (ApiProto.v) answers Err without state change to every NULL-argument call and accepts a valid configuration after any number of rejected / NULL ones. '
+              'About 130 (quick) call scripts - legal sessions with each NULL-handle / NULL-buffer call at each position, rejected configurations before the valid one, decoder sessions - run against the real library, one process per script under a watchdog; result classes must equal the specification and no call may crash or block.'),
+        note=('Trusted: Coq kernel; translators/tr_locks.py (the path semantics of the skeleton language is proved, the extraction of the skeleton from the AST is not; function discovery is textual); the protocol specification is hand-written from the API header and tied by the script runs. '
+              'Blocking other than on mutexes (semaphore waits, full pools) is outside the theorem and covered by the scripts / C27 only. Known finding D29 (temporal filtering returns with temp_filt_mutex held on allocation failure). Fixed in /repo: set_parameter mutex leak, NULL dereferences, decoder deinit.')),
 }
 
 NOT_BUILT_REASON = 'check not built yet in this development (work in progress); no claim is made'
